@@ -49,8 +49,8 @@ namespace {
             case S_PUSH_BACK: {
                 bool ok;
                 switch ( uid % 3 ) {
-                case 0: ok = q.enqueue( V( uid )); break;
-                case 1: ok = q.push( V( uid )); break;
+                case 0: if ( uid & 4 ) { V t( uid ); ok = q.enqueue( t ); } else ok = q.enqueue( V( uid )); break;   // copy / move overloads
+                case 1: if ( uid & 4 ) { V t( uid ); ok = q.push( t ); } else ok = q.push( V( uid )); break;
                 default: ok = q.enqueue_with( [uid]( V& dst ) { dst = V( uid ); } ); break;
                 }
                 if ( ok ) g_pushed.fetch_add( 1, std::memory_order_relaxed ); else g_full.fetch_add( 1, std::memory_order_relaxed );
@@ -175,7 +175,7 @@ namespace {
         int64_t exec( int op, int64_t uid, int64_t, int64_t& )
         {
             switch ( op ) {
-            case S_PUSH_BACK: return (( uid & 1 ) ? q.enqueue( Val( uid )) : q.push( Val( uid ))) ? 1 : 0;
+            case S_PUSH_BACK: { Val t( uid ); return (( uid & 2 ) ? (( uid & 1 ) ? q.enqueue( t ) : q.push( t )) : (( uid & 1 ) ? q.enqueue( Val( uid )) : q.push( Val( uid )))) ? 1 : 0; }   // copy / move overloads of both synonyms
             case S_POP_FRONT: { Val v; if ( !q.dequeue( v )) return -1; return v.good() ? v.uid : bad_uid( v ); }
             }
             return -9;
